@@ -190,7 +190,7 @@ def trace_validation(rep: Report, tier: str, seed: int, items: list) -> None:
     vt = []
     for tr in todo:
         vt += split_groups(tr)
-    val = validate_traces("TreeRecordTrace", vt, batch=60, timeout=1500)
+    val = validate_traces("TreeRecordTrace", vt, batch=160, timeout=1500)
     rep.validation(val, "TreeRecordTrace")
     by = {tr["id"]: tr for tr in todo}
     for r in val.rejected:
